@@ -16,6 +16,9 @@ DECOY1 = bytes.fromhex('0279be667ef9dcbbac55a06295ce870b07029bfcdb2dce28d959f281
 DECOY2 = bytes.fromhex('02c6047f9441ed7d6d3045406e95c07cd85c778e4b8cef3ca7abac09b95c709ee5')          # 2G
 
 
+NONDETERMINISTIC_OPS = {2}      # sign with OpenSSL's random nonce (see impl_run.py)
+
+
 def run(op, a):
     if op == 1:
         pub = CKey(a[0], bool(a[1])).pub
